@@ -20,7 +20,7 @@ func repoPkg(rel string) *pkg { return load(filepath.Join(*repo, rel)) }
 func genB1T6() {
 	p := repoPkg("pkg/encoding/b1t6")
 	tri := load(filepath.Join(iotaGoDir(), "trinary"))
-	g := newGenHdr("B1T6", loopHeaderText+flowHeaderText, "Iota.Model.GoBits")
+	g := newGenHdr("B1T6", loopHeaderText+flowHeaderText+recvHeaderText+callHeaderText, "Iota.Model.GoBits")
 	g.def("tritsPerByte", "Int", p.intConst("tritsPerByte"))
 	g.def("trytesPerByte", "Int", p.intConst("trytesPerByte"))
 	g.raw(translateFunc(p, "encodeGroup"))
@@ -30,7 +30,18 @@ func genB1T6() {
 	g.def("tryteToTryteValueLUT", "List Int", tri.compositeInts(tri.varExpr("TryteToTryteValueLUT")))
 	g.def("minTryteValue", "Int", load(filepath.Join(iotaGoDir(), "consts")).intConst("MinTryteValue"))
 	// loop shape of Decode: `for j := 0; j <= len(src)-tritsPerByte; j += tritsPerByte`, then the length test
-	g.src(p, "Encode", "EncodeToTrytes", "Decode", "DecodeTrytes")
+	// b1t6.go, and the four functions of iota.go's trinary package it calls (at the version go.mod pins), translated as
+	// code (tied to the model in Iota/Tie/B1T6Code.lean); not pinned by text.  The three lookup tables of trinary are
+	// exported variables: nothing in trinary modifies them (checked by the translator) and nothing in the repository
+	// mentions them (checked here).
+	triFns := []string{"MustPutTryteTrits", "MustTritsToTryteValue", "MustTryteValueToTryte", "MustTryteToTryteValue"}
+	g.raw(translateLoopFuncsNS(tri, "trinary", triFns...))
+	checkNoRepoUse("trinary", "TryteValueToTritsLUT", "TryteValueToTyteLUT", "TryteToTryteValueLUT")
+	b1t6Fns := []string{"EncodedLen", "DecodedLen", "encodeGroup", "decodeGroup", "Encode", "EncodeToTrytes", "Decode", "DecodeTrytes"}
+	g.raw(translateLoopFuncsNS(p, "b1t6", b1t6Fns...))
+	for _, n := range b1t6Fns {
+		pinnedFns[p.method(n)] = true
+	}
 	g.rest(p, "b1t6")
 	// the iota.go copy used by pow and migration must be the same code
 	ig := load(filepath.Join(iotaGoDir(), "encoding", "b1t6"))
@@ -171,7 +182,7 @@ func normWS(s string) string {
 func genBech32() {
 	p := repoPkg("pkg/bech32")
 	b := repoPkg("pkg/bech32/internal/base32")
-	g := newGenHdr("Bech32", loopHeaderText+flowHeaderText, "Iota.Model.GoBits")
+	g := newGenHdr("Bech32", loopHeaderText+flowHeaderText+recvHeaderText+callHeaderText, "Iota.Model.GoBits")
 	g.def("maxStringLength", "Int", p.intConst("maxStringLength"))
 	g.def("checksumLength", "Int", p.intConst("checksumLength"))
 	g.def("separator", "Int", p.intConst("separator"))
@@ -196,8 +207,13 @@ func genBech32() {
 	for _, n := range []string{"Encode", "Decode", "EncodedLen", "DecodedLen"} {
 		pinnedFns[b.method(n)] = true
 	}
-	g.src(p, "Encode", "Decode", "isValidHRPChar", "validateCase", "firstUpper", "firstLower",
-		"newEncoding", "encoding.encode", "encoding.decode")
+	// chars.go translated as code (tied to the model in Iota/Tie/Bech32CharsCode.lean); not pinned by text
+	charFns := []string{"newEncoding", "encoding.encode", "encoding.decode"}
+	g.raw(translateLoopFuncsNS(p, "chars", charFns...))
+	for _, n := range charFns {
+		pinnedFns[p.method(n)] = true
+	}
+	g.src(p, "Encode", "Decode", "isValidHRPChar", "validateCase", "firstUpper", "firstLower")
 	g.rest(b, "base32")
 	g.rest(p, "bech32")
 	g.write()
@@ -317,7 +333,7 @@ func genBip39() {
 	p := repoPkg("pkg/bip39")
 	wl := repoPkg("pkg/bip39/wordlist")
 	il := repoPkg("pkg/bip39/internal/wordlists")
-	g := newGen("Bip39")
+	g := newGenHdr("Bip39", loopHeaderText+flowHeaderText+recvHeaderText+callHeaderText, "Iota.Model.GoBits")
 	g.def("entropyMultiple", "Int", p.intConst("entropyMultiple"))
 	g.def("entropyMinBits", "Int", p.intConst("entropyMinBits"))
 	g.def("entropyMaxBits", "Int", p.intConst("entropyMaxBits"))
@@ -334,8 +350,14 @@ func genBip39() {
 	g.def("pbkdf2Salt", "String", leanString(p.src(ka[1])))
 	g.def("pbkdf2Hash", "String", leanString(p.src(ka[4])))
 	g.def("defaultLanguage", "String", leanString(p.stringConst("defaultLanguage")))
+	// the four helpers without library calls translated as code (tied to the model in Iota/Tie/Bip39Code.lean); not pinned by text
+	bipFns := []string{"entropyBitsToWordCount", "wordCountToEntropyBits", "padBytes", "validateEntropy"}
+	g.raw(translateLoopFuncsNS(p, "code", bipFns...))
+	for _, n := range bipFns {
+		pinnedFns[p.method(n)] = true
+	}
 	g.src(p, "MnemonicToSeed", "EntropyToMnemonic", "MnemonicToEntropy", "computeChecksum",
-		"validateEntropy", "validateMnemonic", "padBytes", "entropyBitsToWordCount", "wordCountToEntropyBits",
+		"validateMnemonic",
 		"ParseMnemonic", "Mnemonic.String", "Mnemonic.MarshalText", "Mnemonic.UnmarshalText",
 		"SetWordList", "RegisterWordList", "init")
 	g.src(il, "newWordList", "wordList.Contains", "wordList.Word", "wordList.Index", "English", "Japanese")
@@ -367,7 +389,7 @@ func genBip39() {
 }
 func genCurl() {
 	p := repoPkg("pkg/curl")
-	g := newGen("Curl")
+	g := newGenHdr("Curl", loopHeaderText+flowHeaderText+recvHeaderText+callHeaderText, "Iota.Model.GoBits")
 	g.def("stateSize", "Int", p.intConst("StateSize"))
 	g.def("numRounds", "Int", p.intConst("NumRounds"))
 	c := load(filepath.Join(iotaGoDir(), "consts"))
@@ -375,8 +397,25 @@ func genCurl() {
 	g.def("maxBatchSize", "Int", p.intConst("MaxBatchSize"))
 	g.raw(translateFunc(p, "sBox"))
 	g.raw(translateFunc(p, "bool2int"))
-	g.src(p, "transformGeneric", "sBox", "NewCurlP81", "Curl.Reset", "Curl.Clone", "Curl.CopyState",
-		"Curl.Absorb", "Curl.Squeeze", "Curl.in", "Curl.out", "Curl.transform", "bool2int")
+	// the per-lane packing, the reset, the state copy and the portable permutation translated as code (tied to the model in
+	// Iota/Tie/CurlCode.lean); not pinned by text.  `!disjoint`: CopyState(l, h) assumes that the caller's l and h do not
+	// overlap (documented API assumption); transformGeneric assumes four pairwise distinct arrays, which
+	// checkDistinctArrays establishes at its only call chain Curl.transform -> transform -> transformGeneric.
+	// Absorb and Squeeze call c.transform(), whose body calls the build-dependent `transform` (assembly on amd64): it is
+	// declared abstract — a parameter of the translated Absorb / Squeeze that reads and assigns c.l, c.h — and stays pinned
+	// by text; the tie instantiates it with the model's transform, which C20 relates to the assembly.  `!nowrap`: the
+	// loops `for i := 0; i < tritsCount; i += 243` are translated under the assumption that i += 243 does not wrap; the
+	// tie proves it from the guard tritsCount % 243 == 0 that precedes them.  Squeeze replaces every row of dst by a
+	// fresh make before anything is written into it, so the rows share nothing.
+	codeFns := []string{"bool2int", "sBox", "Curl.in", "Curl.out", "Curl.Reset", "Curl.CopyState!disjoint", "transformGeneric!disjoint"}
+	g.raw(translateLoopFuncsNS(p, "code", codeFns...))
+	for _, n := range codeFns {
+		if !strings.Contains(n, "!abstract") {
+			pinnedFns[p.method(strings.Split(n, "!")[0])] = true
+		}
+	}
+	checkDistinctArrays(p)
+	g.src(p, "NewCurlP81", "Curl.Clone", "Curl.Absorb", "Curl.Squeeze", "Curl.transform")
 	// build-tag selection of the permutation
 	g.def("buildTagAsm", "String", leanString(buildConstraint(filepath.Join(*repo, "pkg/curl/transform_amd64.go"))))
 	g.def("buildTagNoasm", "String", leanString(buildConstraint(filepath.Join(*repo, "pkg/curl/transform_noasm.go"))))
@@ -389,6 +428,104 @@ func genCurl() {
 	a.raw("open Iota.Asm in\ndef program : List Iota.Asm.Instr := [\n" + parseAsm(filepath.Join(*repo, "pkg/curl/transform_amd64.s")) + "]\n")
 	a.write()
 }
+// checkDistinctArrays establishes the assumption under which transformGeneric is translated (its four array pointers
+// point to pairwise distinct arrays): the only callers of transformGeneric / transform in the package are
+// `transform` of transform_noasm.go, which passes its own four parameters on in order (pinned as noasmBody), and
+// Curl.transform, which passes the addresses of two distinct local arrays and of two distinct fields of the receiver.
+func checkDistinctArrays(p *pkg) {
+	calls := 0
+	for _, fn := range p.sortedFiles() {
+		if strings.HasSuffix(fn, "_test.go") || strings.HasSuffix(fn, "_verif.go") {
+			continue
+		}
+		for _, d := range p.files[fn].Decls {
+			fd, ok := d.(*ast.FuncDecl)
+			if !ok || fd.Body == nil {
+				continue
+			}
+			ast.Inspect(fd.Body, func(n ast.Node) bool {
+				c, ok := n.(*ast.CallExpr)
+				if !ok {
+					return true
+				}
+				id, ok := c.Fun.(*ast.Ident)
+				if !ok || (id.Name != "transform" && id.Name != "transformGeneric") {
+					return true
+				}
+				pos := p.fset.Position(c.Pos())
+				bad := func(why string) {
+					die("%s:%d: call of %s: %s; the translation of transformGeneric assumes four pairwise distinct arrays",
+						filepath.Base(pos.Filename), pos.Line, id.Name, why)
+				}
+				if len(c.Args) != 4 {
+					bad("not four arguments")
+				}
+				calls++
+				if fd.Name.Name == "transform" && fd.Recv == nil {
+					// the wrapper: its own parameters, in order
+					var ps []string
+					for _, f := range fd.Type.Params.List {
+						for _, n := range f.Names {
+							ps = append(ps, n.Name)
+						}
+					}
+					for i, a := range c.Args {
+						if x, ok := a.(*ast.Ident); !ok || i >= len(ps) || x.Name != ps[i] {
+							bad("the wrapper does not pass its parameters on in order")
+						}
+					}
+					return true
+				}
+				seen := map[string]bool{}
+				for _, a := range c.Args {
+					u, ok := a.(*ast.UnaryExpr)
+					if !ok || u.Op != token.AND {
+						bad("an argument is not the address of a variable")
+					}
+					key := p.src(u.X)
+					switch x := u.X.(type) {
+					case *ast.Ident:
+					case *ast.SelectorExpr:
+						if _, ok := x.X.(*ast.Ident); !ok {
+							bad("an argument is not the address of a variable or of a field of a variable")
+						}
+					default:
+						bad("an argument is not the address of a variable or of a field of a variable")
+					}
+					if seen[key] {
+						bad("the same array is passed twice")
+					}
+					seen[key] = true
+				}
+				return true
+			})
+		}
+	}
+	if calls == 0 {
+		die("pkg/curl: no call of transform / transformGeneric found")
+	}
+}
+
+// checkNoRepoUse: no non-test Go file of the repository mentions pkg.Name for one of the names (exported variables of a
+// dependency that the translation treats as constants).
+func checkNoRepoUse(pkgName string, names ...string) {
+	filepath.Walk(*repo, func(path string, info os.FileInfo, err error) error {
+		if err != nil || info.IsDir() || !strings.HasSuffix(path, ".go") || strings.HasSuffix(path, "_test.go") {
+			return nil
+		}
+		b, err := os.ReadFile(path)
+		if err != nil {
+			die("%v", err)
+		}
+		for _, n := range names {
+			if strings.Contains(string(b), pkgName+"."+n) {
+				die("%s mentions %s.%s, which the translation of %s treats as a constant", path, pkgName, n, pkgName)
+			}
+		}
+		return nil
+	})
+}
+
 func genPow() {
 	p1 := repoPkg("pkg/pow")
 	p2 := repoPkg("pkg/pow/v2")
